@@ -96,6 +96,7 @@ type termKey struct {
 }
 
 type Terms struct {
+	cur  ssa.Instruction // the load being resolved (flow-sensitive store filtering)
 	cx   *Ctx
 	memo map[termKey]*Term
 	busy map[termKey]bool
@@ -286,7 +287,10 @@ func (ts *Terms) compute(v ssa.Value, fr *Frame, depth int) *Term {
 		return mk("bin", x.Op.String(), ts.of(x.X, fr, depth+1), ts.of(x.Y, fr, depth+1))
 	case *ssa.UnOp:
 		if x.Op == token.MUL {
-			return ts.load(x.X, fr, depth+1)
+			ts.cur = x
+			t := ts.load(x.X, fr, depth+1)
+			ts.cur = nil
+			return t
 		}
 		return mk("un", x.Op.String(), ts.of(x.X, fr, depth+1))
 	case *ssa.MakeClosure:
@@ -423,24 +427,37 @@ func (ts *Terms) loadBase(addr ssa.Value, fr *Frame, depth int) *Term {
 
 // loadAlloc: value of a local variable (or one field of it) from its stores.
 func (ts *Terms) loadAlloc(a *ssa.Alloc, fld *ssa.FieldAddr, fr *Frame, depth int) *Term {
+	at := ts.cur
+	ts.cur = nil
 	m := map[string]*Term{}
 	var whole []*Term
+	// candidate stores: whole-value stores and stores to the same field
+	var wholeSt, fieldSt []*ssa.Store
 	for _, r := range *a.Referrers() {
 		switch x := r.(type) {
 		case *ssa.Store:
 			if x.Addr == a {
-				whole = append(whole, ts.of(x.Val, fr, depth+1))
+				wholeSt = append(wholeSt, x)
 			}
 		case *ssa.FieldAddr:
 			if fld != nil && x.Field == fld.Field {
 				for _, r2 := range *x.Referrers() {
 					if st, ok := r2.(*ssa.Store); ok && st.Addr == x {
-						t := ts.of(st.Val, fr, depth+1)
-						m[t.String()] = t
+						fieldSt = append(fieldSt, st)
 					}
 				}
 			}
 		}
+	}
+	if at != nil && at.Parent() == a.Parent() {
+		wholeSt, fieldSt = reachingStores(wholeSt, fieldSt, at)
+	}
+	for _, st := range wholeSt {
+		whole = append(whole, ts.of(st.Val, fr, depth+1))
+	}
+	for _, st := range fieldSt {
+		t := ts.of(st.Val, fr, depth+1)
+		m[t.String()] = t
 	}
 	if fld != nil {
 		name := fieldNameShort(fld.X.Type(), fld.Field)
@@ -691,4 +708,86 @@ func leaves(t *Term, out map[string]bool) {
 	for _, a := range t.Args {
 		leaves(a, out)
 	}
+}
+
+// ---------------------------------------------------------------- reaching stores
+
+func instrReaches(from, to ssa.Instruction) bool {
+	fb, tb := from.Block(), to.Block()
+	if fb == tb && instrIndex(from) < instrIndex(to) {
+		return true
+	}
+	seen := map[*ssa.BasicBlock]bool{}
+	q := append([]*ssa.BasicBlock{}, fb.Succs...)
+	for len(q) > 0 {
+		b := q[0]
+		q = q[1:]
+		if seen[b] {
+			continue
+		}
+		seen[b] = true
+		if b == tb {
+			return true
+		}
+		q = append(q, b.Succs...)
+	}
+	return false
+}
+
+func instrDominates(a, b ssa.Instruction) bool {
+	if a.Block() == b.Block() {
+		return instrIndex(a) < instrIndex(b)
+	}
+	return a.Block().Dominates(b.Block())
+}
+
+// reachingStores keeps the stores whose value can be observed by the load `at`:
+// stores that cannot reach it are dropped, and so is every store that is
+// overwritten on all paths by a later store dominating the load. A whole-value
+// store counts as a store to every field.
+func reachingStores(whole, field []*ssa.Store, at ssa.Instruction) ([]*ssa.Store, []*ssa.Store) {
+	type cand struct {
+		st    *ssa.Store
+		whole bool
+	}
+	var cs []cand
+	for _, s := range whole {
+		if instrReaches(s, at) {
+			cs = append(cs, cand{s, true})
+		}
+	}
+	for _, s := range field {
+		if instrReaches(s, at) {
+			cs = append(cs, cand{s, false})
+		}
+	}
+	// the last store dominating the load kills everything that must pass through it
+	var killers []*ssa.Store
+	for _, c := range cs {
+		if instrDominates(c.st, at) {
+			killers = append(killers, c.st)
+		}
+	}
+	var w2, f2 []*ssa.Store
+	for _, c := range cs {
+		killed := false
+		for _, k := range killers {
+			if k == c.st {
+				continue
+			}
+			// c happens before k on every path to the load: c reaches k and k does not reach c
+			if instrReaches(c.st, k) && !instrReaches(k, c.st) {
+				killed = true
+			}
+		}
+		if killed {
+			continue
+		}
+		if c.whole {
+			w2 = append(w2, c.st)
+		} else {
+			f2 = append(f2, c.st)
+		}
+	}
+	return w2, f2
 }
